@@ -1,9 +1,11 @@
 (* Properties_C16.v — INTEGER and REAL conversion helpers are exact and produce
    canonical contents.  Only statements, each closed by [exact] of a lemma proved
-   elsewhere, with Print Assumptions beneath.  Model: Leaf/IntegerConv.v (tied to
-   skeletons/INTEGER.c by the correspondence run of bin/vcheck C16). *)
+   elsewhere, with Print Assumptions beneath.  Models: Leaf/IntegerConv.v and
+   Leaf/RealConv.v (tied to skeletons/INTEGER.c and skeletons/REAL.c by the
+   correspondence run of bin/vcheck C16). *)
 From Coq Require Import ZArith List Bool.
 From A1 Require Import Base.Bytes Leaf.IntegerConv Leaf.IntegerConvProofs Leaf.StrtoxProofs.
+From A1 Require Import Leaf.RealConv Leaf.RealConvProofs.
 Import ListNotations.
 Local Open Scope Z_scope.
 
@@ -125,3 +127,97 @@ Theorem C16_strtoul_exact : forall (plus : bool) cs rest,
   else exists p, strtoul_lim (pre ++ cs ++ rest) = (SRange, p, 0).
 Proof. exact strtoul_exact. Qed.
 Print Assumptions C16_strtoul_exact.
+
+(* ======================================================================== *)
+(* REAL <-> double (model: Leaf/RealConv.v).  A double is its 64-bit pattern d:
+   sign d / 2^63, biased exponent d_exp d = (d / 2^52) mod 2^11, fraction
+   d_frac d = d mod 2^52.  The ISO 6093 text form (strtod) is not modelled. *)
+
+(* -- every normal double (any sign, any fraction) comes back bit for bit -- *)
+Theorem C16_real_roundtrip_normal : forall d,
+  0 <= d < two64 /\ 1 <= d_exp d <= 2046 -> REAL2double (double2REAL d) = ROk d.
+Proof. exact real_roundtrip_normal. Qed.
+Print Assumptions C16_real_roundtrip_normal.
+
+(* -- zeros and infinities of both signs, and their stored octets -- *)
+Theorem C16_real_roundtrip_specials :
+  REAL2double (double2REAL 0) = ROk 0 /\
+  REAL2double (double2REAL neg_zero_bits) = ROk neg_zero_bits /\
+  REAL2double (double2REAL pos_inf_bits) = ROk pos_inf_bits /\
+  REAL2double (double2REAL neg_inf_bits) = ROk neg_inf_bits /\
+  double2REAL 0 = [] /\ double2REAL neg_zero_bits = [67] /\
+  double2REAL pos_inf_bits = [64] /\ double2REAL neg_inf_bits = [65].
+Proof. exact real_roundtrip_specials. Qed.
+Print Assumptions C16_real_roundtrip_specials.
+
+(* -- every NaN bit pattern is stored as NOT-A-NUMBER and read back as a NaN -- *)
+Theorem C16_real_roundtrip_nan : forall d, 0 <= d < two64 -> is_nan d = true ->
+  double2REAL d = [66] /\ REAL2double (double2REAL d) = RNaN.
+Proof. exact real_roundtrip_nan. Qed.
+Print Assumptions C16_real_roundtrip_nan.
+
+(* -- the full round trip "for all 2^64 bit patterns" is false of the code on
+      subnormals (the hidden bit is ORed in): refuted + partial -- *)
+Theorem C16_real_roundtrip_partial : forall d, 0 <= d < two64 ->
+  ~ (0 <= d < two64 /\ d_exp d = 0 /\ d_frac d <> 0) ->
+  REAL2double (double2REAL d) = if is_nan d then RNaN else ROk d.
+Proof. exact real_roundtrip_partial. Qed.
+Print Assumptions C16_real_roundtrip_partial.
+
+Theorem C16_real_roundtrip_refuted :
+  exists d, 0 <= d < two64 /\ is_nan d = false /\
+            (0 <= d < two64 /\ d_exp d = 0 /\ d_frac d <> 0) /\
+            double2REAL d = [129; 252; 0; 3] /\
+            REAL2double (double2REAL d) = ROk 3377699720527872 /\
+            REAL2double (double2REAL d) <> ROk d.
+Proof. exact real_roundtrip_refuted. Qed.
+Print Assumptions C16_real_roundtrip_refuted.
+
+(* -- DER form (X.690 8.5, 11.3).  der_real_form_weak = der_real_form without
+      the clause "no leading zero mantissa octet".  The weak form holds for all
+      2^64 bit patterns; the full form is false of the code: refuted + partial +
+      the exact set of doubles for which it fails -- *)
+Theorem C16_real_der_form_partial : forall d, 0 <= d < two64 ->
+  der_real_form_weak (double2REAL d) = true.
+Proof. exact real_der_form_partial. Qed.
+Print Assumptions C16_real_der_form_partial.
+
+Theorem C16_real_der_form_refuted :
+  exists d, (0 <= d < two64 /\ 1 <= d_exp d <= 2046) /\
+            double2REAL d = [128; 249; 0; 129] /\
+            der_real_form (double2REAL d) = false.
+Proof. exact real_der_form_refuted. Qed.
+Print Assumptions C16_real_der_form_refuted.
+
+Theorem C16_real_der_form_iff : forall d N t,
+  0 <= d < two64 -> d_exp d <> 2047 -> (d_exp d <> 0 \/ d_frac d <> 0) ->
+  0 <= t -> N mod 2 = 1 -> N * 2 ^ t = two52 + d_frac d ->
+  (der_real_form (double2REAL d) = true <-> t mod 8 <= 4).
+Proof. exact real_der_form_iff. Qed.
+Print Assumptions C16_real_der_form_iff.
+
+(* -- the written (sign, N, E) denotes exactly the double:
+      N * 2^E = (2^52 + f) * 2^(e - 1075), N odd -- *)
+Theorem C16_real_value_exact : forall d, 0 <= d < two64 /\ 1 <= d_exp d <= 2046 ->
+  exists N E, real_value (double2REAL d) = Some (d_sign d, N, E) /\
+              d_exp d - 1075 <= E /\ N mod 2 = 1 /\
+              N * 2 ^ (E - (d_exp d - 1075)) = two52 + d_frac d.
+Proof. exact real_value_exact. Qed.
+Print Assumptions C16_real_value_exact.
+
+(* -- subnormals: what is written denotes (2^52+f) * 2^(log2 f - 1126) instead
+      of f * 2^-1074 -- *)
+Theorem C16_real_value_subnormal_actual : forall d,
+  0 <= d < two64 /\ d_exp d = 0 /\ d_frac d <> 0 ->
+  exists N E, real_value (double2REAL d) = Some (d_sign d, N, E) /\
+              Z.log2 (d_frac d) - 1126 <= E /\ N mod 2 = 1 /\
+              N * 2 ^ (E - (Z.log2 (d_frac d) - 1126)) = two52 + d_frac d.
+Proof. exact real_value_subnormal_actual. Qed.
+Print Assumptions C16_real_value_subnormal_actual.
+
+Theorem C16_real_value_exact_refuted :
+  exists d, (0 <= d < two64 /\ d_exp d = 0 /\ d_frac d <> 0) /\
+            real_value (double2REAL d) = Some (0, 3, -1024) /\
+            3 * 2 ^ (-1024 + 1074) <> d_frac d.
+Proof. exact real_value_exact_refuted. Qed.
+Print Assumptions C16_real_value_exact_refuted.
